@@ -1,5 +1,6 @@
 import GtirbVerif.Lemmas.IRPurge
 import GtirbVerif.Lemmas.IRSymClosed
+import GtirbVerif.Lemmas.IRExprs
 import GtirbVerif.Props.C20
 import GtirbVerif.Spec.WellFormed
 
@@ -21,7 +22,9 @@ import GtirbVerif.Spec.WellFormed
   referent materialised (proved in C20 for every body and every history, restated here); over
   whole rewrites - `apply()`'s loop over all blocks, patches with any number of extra sections -
   every symbol referent that is a block is a block attached to a byte interval of the module
-  (`symbol_referents_are_part_of_the_module`, from Lemmas/IRSymClosed.lean).
+  (`symbol_referents_are_part_of_the_module`, from Lemmas/IRSymClosed.lean) and every symbolic
+  expression names symbols of the module (`expression_symbols_are_part_of_the_module`, from
+  Lemmas/IRExprs.lean).
 -/
 namespace GtirbVerif.Props.C05
 open GtirbVerif GtirbVerif.IR GtirbVerif.Adt
@@ -84,5 +87,19 @@ theorem symbol_referents_are_part_of_the_module (rs : List BlockMods) (ir ir' : 
   rcases s1 y hy b hb with ⟨s, blk, hblk, hs⟩ | hp
   · exact ⟨blk, s, hblk, sectionOf_some_bi hs, hs⟩
   · cases hp
+
+/-- **symbolic-expression symbols, over a whole `apply()`**: when the loop over all blocks is
+through, every symbolic expression of every byte interval names symbols of the module - no step of
+a rewrite removes a symbol, `edit_byte_interval` only drops or moves expressions, a patch adds
+expressions that name module symbols or its own (premise `PatchExprsAll`, evaluated on the recorded
+states of every run) -/
+theorem expression_symbols_are_part_of_the_module (rs : List BlockMods) (ir ir' : IR)
+    (h : ir.applyAll rs = .ok ir') (hnew : PatchExprsAll ir rs) (he : ExprOk [] ir) :
+    ∀ iv ∈ ir'.intervals, ∀ ke ∈ iv.symExprs,
+      ke.2.sym1 ∈ ir'.syms.map (·.id) ∧ (ke.2.kind = 1 → ke.2.sym2 ∈ ir'.syms.map (·.id)) := by
+  have e1 := applyAll_exprok rs ir ir' h hnew he
+  intro iv hiv ke hke
+  have := e1 iv hiv ke hke
+  simpa [exprIn, symIds] using this
 
 end GtirbVerif.Props.C05
